@@ -65,6 +65,9 @@ type Exec struct {
 	Out   *Outcome
 	Cfg   simrt.Config
 	Trace bool
+	// AllowCutShort: a run that hits its step/time budget is not infrastructure trouble (C14 builds
+	// deliberately heavy configurations); it is counted and otherwise ignored
+	AllowCutShort bool
 }
 
 // Param returns a case parameter (0 if absent).
@@ -145,7 +148,11 @@ func (x *Exec) Bubble(cfg simrt.Config, driver func(s *simrt.Sim)) *simrt.Sim {
 		o.Infra = "bubble ended with panic: " + res.EndPanic
 	}
 	if s.InfraErr != "" && o.Infra == "" {
-		o.Infra = s.InfraErr
+		if x.AllowCutShort && strings.Contains(s.InfraErr, "real-time budget") {
+			o.Probes["run_cut_short.real_time_budget"]++
+		} else {
+			o.Infra = s.InfraErr
+		}
 	}
 	o.Fingerprint, o.SchedFP = s.Fingerprint(), s.SchedFingerprint()
 	o.Steps += s.St.Steps
